@@ -13,6 +13,11 @@ P = {
    "Static analysis of ONE structural necessary condition of C01, not of the numbers: at every element-wise combination of streams inside an indicator (about 100 joins) the operands are proved to refer to the same input position for all admissible configurations, or to differ by exactly the offset the documented formula prescribes (8 tabled joins, compared as symbolic expressions). A skewed join evaluates the formula on values of different days for every non-constant series. Operators, constants, window contents, seeds and rounding are not decided.",
    "Trusts go/types, the intrinsic-offset table, Γ, the declared IdlePeriod contracts of sub-indicators (C02's obligation) and the Fourier–Motzkin procedure. Four genuine misalignments (Apo, Dema, Emv, Fi) are pinned by the unedited tests and listed as known findings.",
    "§4 C01"),
+ "C03": (True,
+   "Kahn-network structure analysis over the stage graph derived by the shape calculus: determinacy lint, channel linearity, close-on-all-exits, drain-on-exit, symbolic buffer >= anchor-skew at every fork/join",
+   "Static analysis of structural conditions, not of schedules: (R1) no select/len(ch)/cap(ch) outside make/timers in the pipeline packages, so every stage is a sequential blocking process (determinate by Kahn's argument); (R2) every channel of every pipeline is consumed exactly once; (R3) every stage closes its outputs on all exits; (R4) multi-input stages drain all inputs whichever closes first; (R5) at each join of branches of one fork — including the inputs of an exported Compute fed from one unbuffered Duplicate — capacities plus stages on the early branch cover the anchor skew, symbolically in the periods. A report is a real deadlock/leak under the all-unbuffered schedule; shortfalls smaller than the slack, livelock and runtime goroutines are not decided.",
+   "Trusts go/types, the Kahn determinacy argument, the stage summaries (C16), contracts of wrapped strategies/moving averages, Γ. R5's availability is an upper bound and its requirement a lower bound (only misses, no false alarms). Repaired: compound strategies not draining (cebb02b), Atr (06185a9), Fi (e2bb7bb).",
+   "§4 C03"),
  "C04": (True,
    "stream-shape calculus: consumption lead of every indicator output and action stream proved <= its label; closure-purity lint",
    "Static analysis, sufficient for the stated clause: in a stage doing only blocking receives and sends an output cannot depend on inputs consumed after it was sent, so lead <= label for ALL configurations (label = declared warm-up for indicators, 0 for actions) excludes look-ahead, provided stage closures read only their arguments, per-call state and receiver configuration (checked: no channel operation, no package-level variable in any closure run by a stage).",
